@@ -8,8 +8,9 @@
      Expr.parse_ex                            token-level precedence-climbing parser
      Expr.wf                                  "parenthesised the way Numbers stores it"
      Expr.renderable                          literals have a text, arrays are rectangular and hold constants *)
-From Coq Require Import ZArith NArith List Bool Arith String.
-From NP Require Import Gen.GenC08 Model.PyBase Model.FormulaStack Model.Expr Proofs.ExprP Proofs.FormulaStackP.
+From Coq Require Import ZArith NArith List Bool Arith.
+From NP Require Import Gen.GenC08 Model.PyBase Model.FormulaStack Model.Expr Proofs.ExprP Proofs.ExprFuelP
+  Proofs.FormulaStackP Proofs.NumLitP Proofs.DateP.
 Import ListNotations.
 Open Scope nat_scope.
 Open Scope list_scope.
@@ -59,6 +60,11 @@ Print Assumptions formula_text_faithful.
    them and postfix % above that, the printed tokens parse back to the same tree: same operators on
    the same operands in the same order, same functions with the same arguments, same literals.
    Fuel: there is a bound beyond which every amount of fuel gives this answer. *)
+Theorem parse_show : forall e : expr, wf prec_tab e -> parse prec_tab (show e) = Some e.
+Proof. exact (parse_show_lemma prec_tab). Qed.
+Print Assumptions parse_show.
+
+(* the same without reference to the fuel the executable parser happens to use *)
 Theorem show_parse : forall e : expr, wf prec_tab e ->
   exists f0, forall f, f0 <= f -> parse_ex prec_tab f 0 (show e) = Some (e, []).
 Proof. exact (show_parse_lemma prec_tab). Qed.
@@ -88,6 +94,60 @@ Theorem string_literal_scan : forall s rest : list N, hd_error rest <> Some 34%N
   scan_string (string_text s ++ rest) = Some (s, rest).
 Proof. exact scan_string_text. Qed.
 Print Assumptions string_literal_scan.
+
+(* ---------- number literals ---------- *)
+(* A positional text denotes (mantissa, exponent) = plain_val; the repr d[.ddd]e<exp> of the stored double
+   denotes sci_val.  FULL STATEMENT (what C08 asks of number literals):
+     forall ip fp exp dotted e, <shape> -> exists out,
+       number_to_str (mantissa_text ip fp dotted ++ "e" ++ exp) = Ok out /\ dval_eq (plain_val out) (sci_val ... e)
+   It is REFUTED on the pinned code (open known finding number-literal-positive-exponent): *)
+Theorem number_literal_faithful_refuted :
+  exists (ip fp exp : list N) (dotted : bool) (e : Z),
+    digits ip /\ digits fp /\ (dotted = false -> fp = []) /\ length ip = 1 /\ py_int exp = Ok e /\ (e <> 0)%Z /\
+    exists out, number_to_str (mantissa_text ip fp dotted ++ 101%N :: exp) = Ok out /\
+                ~ dval_eq (plain_val out) (sci_val (mantissa_text ip fp dotted) e).
+Proof. exact number_literal_refuted_lemma. Qed.
+Print Assumptions number_literal_faithful_refuted.
+
+(* and holds outside the finding's signature: negative exponents, and positive ones with one fraction digit *)
+Theorem number_literal_faithful_partial : forall (ip fp exp : list N) (dotted : bool) (e : Z),
+  digits ip -> digits fp -> (dotted = false -> fp = []) -> length ip = 1 -> py_int exp = Ok e ->
+  ((e < 0)%Z \/ ((0 < e)%Z /\ length fp = 1)) ->
+  exists out, number_to_str (mantissa_text ip fp dotted ++ 101%N :: exp) = Ok out /\
+              dval_eq (plain_val out) (sci_val (mantissa_text ip fp dotted) e).
+Proof. exact number_literal_partial_lemma. Qed.
+Print Assumptions number_literal_faithful_partial.
+
+(* a repr without exponent is printed as it is; integer literals print str(decimal_low) *)
+Theorem number_literal_plain : forall rep : list N,
+  existsb (N.eqb 101) rep = false -> number_to_str rep = Ok rep.
+Proof. exact number_literal_plain_lemma. Qed.
+Print Assumptions number_literal_plain.
+
+(* the proposed repair (known_findings.d/C08-number-to-str-exponent.proposed-patch) satisfies the full
+   statement for every exponent repr produces (positive exponents are >= 16 > number of fraction digits) *)
+Theorem number_literal_repaired : forall (ip fp exp : list N) (dotted : bool) (e : Z),
+  digits ip -> digits fp -> (dotted = false -> fp = []) -> length ip = 1 -> py_int exp = Ok e ->
+  ((e < 0)%Z \/ (0 < e)%Z /\ (Z.of_nat (length fp) <= e)%Z) ->
+  exists out, number_to_str_repaired (mantissa_text ip fp dotted ++ 101%N :: exp) = Ok out /\
+              dval_eq (plain_val out) (sci_val (mantissa_text ip fp dotted) e).
+Proof. exact number_literal_repaired_lemma. Qed.
+Print Assumptions number_literal_repaired.
+
+(* ---------- date literals ---------- *)
+(* the (y, m, d) printed for a stored day number is the civil date with that day number (proleptic
+   Gregorian day count written independently), month and day in range - for every day, all eras *)
+Theorem date_literal_denotes : forall z y m d : Z, civil_from_days z = (y, m, d) ->
+  days_from_civil y m d = z /\ (1 <= m <= 12)%Z /\ (1 <= d <= 31)%Z.
+Proof. exact civil_roundtrip_lemma. Qed.
+Print Assumptions date_literal_denotes.
+
+(* and Formula.date prints exactly those numbers (years 1..9999: datetime's range) *)
+Theorem date_literal_text : forall secs y m d : Z,
+  civil_from_days (secs / 86400 + DAYS_0000_03_01_TO_2001_01_01)%Z = (y, m, d) -> (1 <= y <= 9999)%Z ->
+  date_text secs = Ok (t_DATE_open ++ Z_to_str y ++ g_comma ++ Z_to_str m ++ g_comma ++ Z_to_str d ++ g_rpar).
+Proof. exact date_text_shape. Qed.
+Print Assumptions date_literal_text.
 
 (* ---------- non-vacuity ---------- *)
 Definition ex_num (n : N) : expr := EAtom (ANum DECIMAL_HIGH_INTEGER n []).
@@ -121,3 +181,14 @@ Proof. split; vm_compute; reflexivity. Qed.
 (* a node array that is not the image of a tree can fail: the theorem's scope is real *)
 Example ex_underflow : formula_text function_map [ADDITION_NODE] = Err PopEmpty.
 Proof. reflexivity. Qed.
+
+(* the epoch and a leap day; a literal the partial theorem covers and the refuting one *)
+Example ex_epoch : date_text 0 = Ok [68;65;84;69;40;50;48;48;49;44;49;44;49;41]%N            (* DATE(2001,1,1) *)
+  /\ date_text (86400 * 1154 + 86399) = Ok [68;65;84;69;40;50;48;48;52;44;50;44;50;57;41]%N. (* DATE(2004,2,29) *)
+Proof. split; vm_compute; reflexivity. Qed.
+Example ex_small_float : number_to_str [49;46;53;101;45;48;55]%N = Ok [48;46;48;48;48;48;48;48;49;53]%N.   (* 1.5e-07 -> 0.00000015 *)
+Proof. vm_compute. reflexivity. Qed.
+Example ex_big_float : number_to_str [49;46;50;51;52;101;43;50;48]%N                                     (* 1.234e+20 *)
+  = Ok [49;50;51;52;48;48;48;48;48;48;48;48;48;48;48;48;48;48;48;48;48;48;48]%N                          (* 1.234e22: the defect *)
+  /\ number_to_str_repaired [49;46;50;51;52;101;43;50;48]%N = Ok [49;50;51;52;48;48;48;48;48;48;48;48;48;48;48;48;48;48;48;48;48]%N.
+Proof. split; vm_compute; reflexivity. Qed.
